@@ -254,16 +254,41 @@ func (c *Ctx) ERRRET(rule string) []report.Obligation {
 			}
 			return false
 		}
+		var stepCall *ssa.Call // the call of the scanning step in extractVarValue, when the scan is a step
 		if !scans(f) {
 			for _, cs := range callSites(f, func(com *ssa.CallCommon) bool {
 				cal := com.StaticCallee()
 				return cal != nil && cal.Blocks != nil && strings.HasPrefix(c.P.FuncID(cal), "dotenv.")
 			}) {
 				if g := cs.Common().StaticCallee(); scans(g) {
+					stepCall, _ = cs.(*ssa.Call)
 					f = g
 					break
 				}
 			}
+		}
+		// a step without an error result reports failure with a `false` flag that the caller must turn into the error
+		flagIdx := -1
+		if stepCall != nil {
+			res := f.Signature.Results()
+			hasErr := false
+			for i := 0; i < res.Len(); i++ {
+				if isErrorType(res.At(i).Type()) {
+					hasErr = true
+				}
+				if bt, ok := res.At(i).Type().Underlying().(*types.Basic); ok && bt.Kind() == types.Bool {
+					flagIdx = i
+				}
+			}
+			if hasErr {
+				flagIdx = -1
+			}
+		}
+		flagOf := func(r *ssa.Return) (bool, bool) {
+			if flagIdx < 0 || flagIdx >= len(r.Results) {
+				return false, false
+			}
+			return constBool(retValue(r, flagIdx))
 		}
 		fi := prog.Info(f)
 		// returns after the quote loop carry an error; the successful return inside the loop needs char == quote && !escape
@@ -285,8 +310,18 @@ func (c *Ctx) ERRRET(rule string) []report.Obligation {
 				continue
 			}
 			inLoopBody := loopHead != nil && loopHead.Succs[0].Dominates(r.Block())
+			flagV, flagKnown := flagOf(r)
 			switch {
-			case inLoopBody && isNilOrConst(errv):
+			case flagIdx >= 0 && inLoopBody && !(flagKnown && flagV):
+				// inside the loop a flag-reporting step either succeeds (true) or the flag is not constant
+				if !flagKnown {
+					okIn = false
+				}
+			case flagIdx >= 0 && !inLoopBody && loopHead != nil && loopHead.Succs[1].Dominates(r.Block()):
+				if !(flagKnown && !flagV) {
+					okAfter = false
+				}
+			case inLoopBody && (isNilOrConst(errv) && flagIdx < 0 || flagIdx >= 0 && flagKnown && flagV):
 				nIn++
 				// must be on the char == quote edge and the not-escaped edge
 				isQuote := factHolds(r.Block(), func(cond ssa.Value, val bool) bool {
@@ -300,6 +335,35 @@ func (c *Ctx) ERRRET(rule string) []report.Obligation {
 				if !c.dyn.definitelyNonNil(errv, r.Block(), 2) {
 					okAfter = false
 				}
+			}
+		}
+		if flagIdx >= 0 && stepCall != nil {
+			// the caller fails on the `false` edge of the flag
+			turned := false
+			for _, u := range *stepCall.Referrers() {
+				ex, ok := u.(*ssa.Extract)
+				if !ok || ex.Index != flagIdx {
+					continue
+				}
+				for _, uu := range *ex.Referrers() {
+					iff, ok := uu.(*ssa.If)
+					if !ok {
+						continue
+					}
+					fail := iff.Block().Succs[1]
+					all := true
+					for _, r := range returnsOf(stepCall.Parent()) {
+						if fail == r.Block() || fail.Dominates(r.Block()) {
+							if !c.dyn.definitelyNonNil(errRet(r), r.Block(), 2) {
+								all = false
+							}
+						}
+					}
+					turned = all
+				}
+			}
+			if !turned {
+				okAfter = false
 			}
 		}
 		out = append(out, verdict(okIn && nIn == 1, rule, "extractVarValue :: quoted value ends only at the matching quote", c.P.Pos(f.Pos()),
